@@ -29,3 +29,39 @@ Theorem C09_mask_fields : mask_fields_ok = true.
 Proof. vm_compute. reflexivity. Qed.
 Goal True. idtac "PA:C09_mask_fields". Abort.
 Print Assumptions C09_mask_fields.
+
+(* the derived label fields sit where the masks put them: PRN only inside groups repeated NSat times, CELLPRN / CELLSIG only
+   inside groups repeated NCell times, each MSM layout has all three, and no label field occurs outside the MSM layouts *)
+Fixpoint label_places_item (cnt:option string) (lbl:string) (it:item) : bool :=
+  match it with
+  | IField _ =>
+      match find_field T lbl with
+      | Some fd => match df_ty fd with
+                   | TPRN => match cnt with Some c => String.eqb c (t_nsat T) | None => false end
+                   | TCPR | TCSG => match cnt with Some c => String.eqb c (t_ncell T) | None => false end
+                   | _ => true
+                   end
+      | None => true
+      end
+  | IGroup (CNamed k) b => label_places_body (Some k) b
+  | IGroup _ b => label_places_body None b
+  | IOpt _ _ b => label_places_body cnt b
+  | IBad _ => false
+  end
+with label_places_body (cnt:option string) (b:body) : bool :=
+  match b with
+  | BNotDict _ => false
+  | BItems l => (fix go (l:list (string*item)) : bool := match l with [] => true | (lbl,it)::r => label_places_item cnt lbl it && go r end) l
+  end.
+Definition is_label_key (k:string) : bool :=
+  match find_field T k with Some fd => match df_ty fd with TPRN | TCPR | TCSG => true | _ => false end | None => false end.
+Definition label_groups_ok : bool :=
+  forallb (fun '(ident, b) => label_places_body None b &&
+                              existsb (fun k => match find_field T k with Some fd => match df_ty fd with TPRN => true | _ => false end | None => false end) (keys_body b) &&
+                              existsb (fun k => match find_field T k with Some fd => match df_ty fd with TCPR => true | _ => false end | None => false end) (keys_body b) &&
+                              existsb (fun k => match find_field T k with Some fd => match df_ty fd with TCSG => true | _ => false end | None => false end) (keys_body b)) (t_msm T) &&
+  forallb (fun '(ident, b) => negb (existsb is_label_key (keys_body b))) (t_get T ++ t_igs T).
+Theorem C09_label_groups : label_groups_ok = true.
+Proof. vm_compute. reflexivity. Qed.
+Goal True. idtac "PA:C09_label_groups". Abort.
+Print Assumptions C09_label_groups.
